@@ -35,6 +35,8 @@ SiteTable == {
    api |-> "zonetree::InMemoryZoneDiffBuilder::build: end serial must be newer (src/zonetree/types.rs)"],
   [kind |-> "cmp", site |-> "ixfr",      op |-> "IxfrUpToDate",
    api |-> "net::server::middleware::xfr: query_serial >= soa.serial() -> single SOA (RFC 1995 section 2)"],
+  [kind |-> "cmp", site |-> "ixfrnodiffs", op |-> "IxfrUpToDate",
+   api |-> "net::server::middleware::xfr preprocess, provider without diffs: ixfr_client_is_current (query_serial >= soa.serial()) -> single SOA, otherwise the whole zone (RFC 1995 sections 2 and 4)"],
   \* ---- Add ---------------------------------------------------------------
   [kind |-> "add", site |-> "serial",    op |-> "Add",
    api |-> "base::Serial::add (panics above 2^31 - 1)"],
